@@ -26,6 +26,18 @@ echo "demo with patch: exit $r2" >> $out
 rm -f $WT/$dpath
 (cd $WT && go test -vet=off -count=1 ./... 2>&1 | grep -E "^--- FAIL|^FAIL|^ok" > /tmp/confirm_$NAME.3)
 bad=$(grep -E "^--- FAIL" /tmp/confirm_$NAME.3 | grep -vE "$ALLOWED" | head -5)
+# timing-dependent tests flake under machine load: an unexpected failure counts only if the test also fails when re-run alone (3x) with the patch
+if [ -n "$bad" ]; then
+  still=""
+  for t in $(echo "$bad" | sed -E 's/^--- FAIL: ([A-Za-z0-9_]+).*/\1/' | sort -u); do
+    pkgs=$(cd $WT && grep -rl "func $t(" --include=*_test.go pkg | xargs -n1 dirname | sort -u)
+    for pk in $pkgs; do
+      (cd $WT && go test -vet=off -count=3 -run "^$t\$" ./$pk/ > /tmp/confirm_$NAME.4 2>&1) || still="$still $t"
+    done
+  done
+  echo "unexpected failures in the full run: [$(echo $bad | tr '\n' ' ')]; still failing when re-run alone: [$still]" >> $out
+  bad="$still"
+fi
 echo "full suite with patch: unexpected failures: [${bad}]" >> $out
 if [ $r1 -eq 0 ] && [ $rb -eq 0 ] && [ $r2 -ne 0 ] && [ -z "$bad" ]; then
   echo "CONFIRMED" >> $out
